@@ -846,6 +846,35 @@ impl Database {
         let is_distinct =
             matches!(&stmt, Statement::Select(select) if select.distinct == Distinct::Distinct);
 
+        // DISTINCT is applied below, after the executor has run: the executor must then produce the
+        // whole (ordered) result, and LIMIT / OFFSET are applied once, after duplicates are removed
+        let mut distinct_window: Option<(Option<u64>, Option<u64>)> = None;
+        let stmt = match stmt {
+            Statement::Select(select)
+                if is_distinct
+                    && select.set_op.is_none()
+                    && (select.limit.is_some() || select.offset.is_some()) =>
+            {
+                let const_u64 = |e: Option<&crate::sql::ast::Expr<'_>>| -> Option<u64> {
+                    match e {
+                        Some(crate::sql::ast::Expr::Literal(crate::sql::ast::Literal::Integer(n))) => {
+                            n.parse().ok()
+                        }
+                        _ => None,
+                    }
+                };
+                distinct_window = Some((const_u64(select.limit), const_u64(select.offset)));
+                let unlimited: &crate::sql::ast::SelectStmt<'_> =
+                    arena.alloc(crate::sql::ast::SelectStmt {
+                        limit: None,
+                        offset: None,
+                        ..*select
+                    });
+                Statement::Select(unlimited)
+            }
+            other => other,
+        };
+
         let catalog_guard = self.shared.catalog.read();
         let catalog = catalog_guard.as_ref().unwrap();
         let planner = Planner::new(catalog, &arena);
@@ -3881,7 +3910,7 @@ impl Database {
         };
 
         let rows = if is_distinct {
-            let limit_info = find_limit(physical_plan.root);
+            let limit_info = distinct_window.or_else(|| find_limit(physical_plan.root));
             let offset = limit_info.and_then(|(_, o)| o).unwrap_or(0) as usize;
             let limit = limit_info.and_then(|(l, _)| l);
 
